@@ -247,6 +247,7 @@ def c14_c(ctx):
     deep = False
     obs_ok = False
     attr_ok = False
+    via_setter = False
     for m in copies:
         ex = ctx.ex(m)
         for n in own_nodes(m.node):
@@ -265,6 +266,7 @@ def c14_c(ctx):
                         if is_copy_of(v, 'self.observed') or \
                                 is_copy_of(v, "self.source_net.graph['observed']"):
                             obs_ok = True
+                            via_setter = via_setter or (tt[0] == 'attr' and tt[2] == 'observed')
                     # attr_dict: X['attr_dict'] = copy(X['attr_dict']) inside a loop over nodes
                     if match(tt, pattern("_['attr_dict']")) is not None and \
                             enclosing_loop(n) is not None:
@@ -286,6 +288,54 @@ def c14_c(ctx):
               "copy() gives every node of the copy its own ['attr_dict']",
               "copy() shares every node's ['attr_dict'] with the original: parameter flags or "
               'state edits of the copy change the original', fn=copies[-1], node=copies[-1].node)
+    # copy() gives the copy its own dict by *assigning* to .observed: that only works while the
+    # setter rebinds graph['observed'] (the copy's graph dict still holds the original's dict
+    # when the setter runs, so clearing or updating it in place edits the original)
+    oset = em.setters.get('observed')
+    if oset is None:
+        raise AnchorMissing('observed setter of ElfiModel')
+    ctx.touch(oset)
+    exo = ctx.ex(oset)
+    pname = oset.node.args.args[1].arg
+    rebinds = []
+    for n in own_nodes(oset.node):
+        if isinstance(n, ast.Assign):
+            for tg in n.targets:
+                if match(exo.term(tg), pattern("_.graph['observed']")) is not None:
+                    v = exo.term(n.value)
+                    if v == ('param', pname) or is_copy_of(v, pname):
+                        rebinds.append(n)
+    ok = bool(rebinds) and cfg_of(oset).must_pass([ctx.node(oset, r) for r in rebinds])
+    if deep or not via_setter:
+        ok, inplace_applies = True, False     # copy() does not depend on the setter rebinding
+    else:
+        inplace_applies = True
+    ctx.check(ok, oset, 'observed setter rebinds the dict',
+              "graph['observed'] = observed on every path",
+              "the observed setter does not rebind graph['observed'] on every path: a copy that "
+              'assigns its observed data writes into the dict it still shares with the original',
+              fn=oset, node=rebinds[0] if rebinds else oset.node)
+    inplace = []
+    for n in own_nodes(oset.node):
+        if isinstance(n, ast.Call) and isinstance(n.func, ast.Attribute) and \
+                n.func.attr in ('clear', 'update', 'pop', 'popitem', 'setdefault', '__setitem__',
+                                '__delitem__'):
+            if match(exo.term(n.func.value), pattern("_.graph['observed']")) is not None or \
+                    match(exo.term(n.func.value), pattern('self.observed')) is not None:
+                inplace.append(n)
+        if isinstance(n, (ast.Assign, ast.AugAssign, ast.Delete)):
+            tgs = n.targets if not isinstance(n, ast.AugAssign) else [n.target]
+            for tg in tgs:
+                if isinstance(tg, ast.Subscript) and (
+                        match(exo.term(tg.value), pattern("_.graph['observed']")) is not None or
+                        match(exo.term(tg.value), pattern('self.observed')) is not None):
+                    inplace.append(n)
+    ctx.check(not (inplace and inplace_applies), oset, 'observed setter leaves the previous dict alone',
+              'no clear/update/item assignment on the dict being replaced',
+              'the observed setter edits the previous dict in place (`{}`): that dict is shared '
+              'with the model this one was copied from'.format(
+                  src(inplace[0])[:60] if inplace else ''), fn=oset,
+              node=inplace[0] if inplace else oset.node)
     # the copy is a new graph object, not the same one
     g = gm.methods.get('copy')
     if g is not None:
@@ -428,6 +478,12 @@ def c14_e(ctx):
             pg = [(t, pol) for (t, pol, _) in ctx.guards(setter, pops[0])]
             member = [t for (t, pol) in sg if pol]
             ok = bool(member) and any((t, False) in pg for t in member)
+            # ... and the loop ends only by exhausting the nodes: an early exit leaves the
+            # flag on the nodes that were not reached
+            early = [n for n in ast.walk(lo) if isinstance(n, ast.Return) or
+                     (isinstance(n, ast.Break) and enclosing_loop(n) is lo)]
+            if early:
+                ok = False
     ctx.check(ok, setter, 'setter visits every node',
               'flag set for listed nodes, removed for all others',
               'the setter does not set the flag on the listed nodes and clear it on every other '
